@@ -328,6 +328,49 @@ def _multi_case(repo, it, S, spec):
 _W = {}
 
 
+def _mixed_strand_case(repo, it, S, spec):
+    """a gene whose isoforms lie on both strands (the writer assigns one strand to the whole gene): the majority strand, the first
+    supplied isoform's strand on a tie - and the same choice whatever order a set is iterated in"""
+    strands_, seed = spec
+    from ..interp import other_hash_seed
+    f = repo.fn(f"{W}:collection_to_tbl")
+    B = it.enum("Biotype")
+    par = chrom_parent(it, GENOME, alphabet="NT_EXTENDED")
+    out = []
+
+    def export():
+        txs = [mk_transcript(it, [(5 + 2 * i, 18 + i)], S[sn], transcript_id=f"gX.{i}", sequence_name="chr1", parent_or_seq_chunk_parent=par,
+                             transcript_type=B["lncRNA"]) for i, sn in enumerate(strands_)]
+        g = mk_gene(it, txs, gene_id="gX", gene_symbol="gXsym", gene_type=B["lncRNA"], sequence_name="chr1", parent_or_seq_chunk_parent=par)
+        ac = mk_collection(it, [g], None, sequence_name="chr1", parent_or_seq_chunk_parent=par)
+        it.overrides["random"] = SeededRandom()
+        handle = []
+        k, v = run(it, f, [[ac], handle], dict(locus_tag_prefix="LT", submitter_lab_name="lab", random_seed=seed), None)
+        return k, (list(handle) if k == "ok" else v)
+    k1, t1 = export()
+    with other_hash_seed():
+        k2, t2 = export()
+    desc = f"gene with isoforms on {list(strands_)}"
+    if k1 != "ok":
+        return 1, [("mixed-strand gene export", f"{desc}: collection_to_tbl raises {t1}", f.qual)]
+    if (k1, t1) != (k2, t2):
+        d_ = [(a, b) for a, b in zip(t1, t2) if a != b][:1] if k2 == "ok" else t2
+        out.append(("reproducible for a fixed seed [mixed-strand gene]", f"{desc}: exported again with every set iterated in the opposite order the file differs: {d_}",
+                    f"{W}:GeneTblFeature.__init__"))
+    _h, feats = parse_tbl(t1)
+    gene_rows = [x for x in feats if x["type"] == "gene"]
+    if gene_rows:
+        a, b = gene_rows[0]["intervals"][0]
+        got = "MINUS" if int(a.lstrip("<>")) > int(b.lstrip("<>")) else "PLUS"
+        cnt = {sn: list(strands_).count(sn) for sn in set(strands_)}
+        best = max(cnt.values())
+        want = [sn for sn in strands_ if cnt[sn] == best][0]
+        if got != want:
+            out.append(("strand of a mixed-strand gene", f"{desc}: the gene row is written on {got}; majority strand (first supplied isoform on a tie) is {want}",
+                        f"{W}:GeneTblFeature.__init__"))
+    return 2, out
+
+
 def _runner(repo, fn):
     def work(spec):
         if _W.get("repo") is not repo:
@@ -360,6 +403,8 @@ def rk_tbl(ctx):
     results = pmap(_runner(ctx.repo, _case), specs, min_items=4)
     multi = [((("gA", "gB", "gK"), ("gH", "gL"), ("gJ",)), fl, st) for fl in ("EUKARYOTIC", "PROKARYOTIC") for st in (5, 3)]
     mresults = pmap(_runner(ctx.repo, _multi_case), multi, min_items=4)
+    mixed = [(("PLUS", "MINUS"), 11), (("MINUS", "PLUS"), 11), (("MINUS", "PLUS", "PLUS"), 0), (("PLUS", "MINUS", "MINUS", "PLUS"), 3)]
+    mresults += pmap(_runner(ctx.repo, _mixed_strand_case), mixed, min_items=4)
     # an unseeded export (seed None) is allowed to differ between runs
     cleaned = []
     for spec, (n, outs) in zip(specs, results):
